@@ -13,6 +13,8 @@ import (
 	"context"
 	"errors"
 	"io"
+	"regexp"
+	"strings"
 	"sync"
 
 	"github.com/thanos-io/objstore"
@@ -39,6 +41,9 @@ type faultBucket struct {
 	calls    []callRec
 	reads    int
 	failRead func(idx int, kind, name string) bool // idx counts read calls from 0
+	// intercept (C33) may answer a read itself: "" = pass through, "failed" = transient error,
+	// "notfound" = the bucket's not-found error, "corrupt" / "badversion" = altered content (Get only)
+	intercept func(kind, name string) string
 	afterMut func(rec callRec)                     // called outside the lock
 }
 
@@ -116,12 +121,18 @@ func (b *faultBucket) Iter(ctx context.Context, dir string, f func(string) error
 	if err := b.gate("iter", dir, false); err != nil {
 		return err
 	}
+	if b.mode("iter", dir) == "failed" {
+		return errInjected
+	}
 	return b.inner.Iter(ctx, dir, f, options...)
 }
 
 func (b *faultBucket) IterWithAttributes(ctx context.Context, dir string, f func(objstore.IterObjectAttributes) error, options ...objstore.IterOption) error {
 	if err := b.gate("iter", dir, false); err != nil {
 		return err
+	}
+	if b.mode("iter", dir) == "failed" {
+		return errInjected
 	}
 	return b.inner.IterWithAttributes(ctx, dir, f, options...)
 }
@@ -130,9 +141,43 @@ func (b *faultBucket) SupportedIterOptions() []objstore.IterOptionType {
 	return b.inner.SupportedIterOptions()
 }
 
+var versionRe = regexp.MustCompile(`"version":\s*1`)
+
+func (b *faultBucket) mode(kind, name string) string {
+	b.mu.Lock()
+	h := b.intercept
+	b.mu.Unlock()
+	if h == nil {
+		return ""
+	}
+	return h(kind, name)
+}
+
 func (b *faultBucket) Get(ctx context.Context, name string) (io.ReadCloser, error) {
 	if err := b.gate("get", name, false); err != nil {
 		return nil, err
+	}
+	switch b.mode("get", name) {
+	case "failed":
+		return nil, errInjected
+	case "notfound":
+		_, err := b.inner.Get(ctx, "verif/definitely/not/there")
+		return nil, err
+	case "corrupt":
+		return io.NopCloser(strings.NewReader("{ this is not json")), nil
+	case "badversion":
+		rc, err := b.inner.Get(ctx, name)
+		if err != nil {
+			// no such object: an object of an unsupported version appears in its place
+			return io.NopCloser(strings.NewReader(`{"version": 9}`)), nil
+		}
+		body, _ := io.ReadAll(rc)
+		rc.Close()
+		loc := versionRe.FindIndex(body)
+		if loc != nil {
+			body = append(append(append([]byte{}, body[:loc[0]]...), []byte(`"version": 9`)...), body[loc[1]:]...)
+		}
+		return io.NopCloser(bytes.NewReader(body)), nil
 	}
 	return b.inner.Get(ctx, name)
 }
@@ -147,6 +192,9 @@ func (b *faultBucket) GetRange(ctx context.Context, name string, off, length int
 func (b *faultBucket) Exists(ctx context.Context, name string) (bool, error) {
 	if err := b.gate("exists", name, false); err != nil {
 		return false, err
+	}
+	if b.mode("exists", name) == "failed" {
+		return false, errInjected
 	}
 	return b.inner.Exists(ctx, name)
 }
